@@ -238,6 +238,9 @@ func (w *world) lastMember() []byte {
 
 func (w *world) certDSOf(id []byte, pos int, bad bool, t uint64, dsHeight uint64) []byte {
 	ds := []*lib.DoubleSigner{{Id: id, Heights: []uint64{dsHeight}}}
+	if id == nil {
+		ds = nil // a certificate that lists its non-signer and no double signer: it slashes nobody
+	}
 	cpH := w.h*1000 + 10 + uint64(pos)
 	if bad {
 		// second entry repeats the first: valid statelessly, invalid once the first has been indexed
@@ -325,6 +328,13 @@ var templates = []tmpl{
 	// the budget of a rolled-back transaction stayed used)
 	{name: "cert2y", build: func(w *world, occ, pos int) []byte {
 		return w.certDSOf(w.lastMember(), pos, false, tstamp(w.h, 12, pos), w.h*100+70+uint64(occ))
+	}},
+	// a valid certificate with a non-signer and NO double signer: it slashes nobody, so a failing certificate behind it is the
+	// FIRST slashing transaction of the block (every other certificate template slashes its double signer first and the
+	// per-block slash budget is no longer empty when the failing one takes its snapshot), and at the end of a non-sign window
+	// the non-signer it counts is what the failing certificate's settlement slashes before its double-signer list is refused
+	{name: "cert2n", build: func(w *world, occ, pos int) []byte {
+		return w.certDSOf(nil, pos, false, tstamp(w.h, 13, pos), 0)
 	}},
 }
 
